@@ -190,15 +190,19 @@ def txt_val(v):
         return '"%s"' % p
     if k == "f":
         return p
+    if k == "v":
+        return "[" + ", ".join(p) + "]"
     return p  # bool
 
 
 def exact_val(v):
     """tagged value as the harness observes it (Exact encoding)"""
+    import struct
     k, p = v
     if k == "f":
-        import struct
         return ["f", "bits:%016x" % struct.unpack(">Q", struct.pack(">d", float(p)))[0]]
+    if k == "v":
+        return ["v", ["bits:%08x" % struct.unpack(">I", struct.pack(">f", float(x)))[0] for x in p]]
     return [k, p]
 
 
@@ -209,15 +213,17 @@ def rand_val(rng, kind):
         return ("s", rng.choice(["a", "b", "xy"]))
     if kind == "f":
         return ("f", rng.choice(["1.5", "2.25", "0.5"]))
+    if kind in ("v2", "v3"):
+        return ("v", [rng.choice(["1.0", "0.5", "2.0"]) for _ in range(int(kind[1]))])
     return ("b", rng.choice(["true", "false"]))
 
 
 def gen_c33_scenario(rng, case):
-    tys = ["int", "string", "float", "bool"]
-    kind_of = {"int": "i64", "string": "s", "float": "f", "bool": "b"}
+    tys = ["int", "string", "float", "bool", "int", "string", "vector:2", "vector:3"]
+    kind_of = {"int": "i64", "string": "s", "float": "f", "bool": "b", "vector:2": "v2", "vector:3": "v3"}
     ar = rng.randint(1, 3)
     types = [rng.choice(tys) for _ in range(ar)]
-    cols = ", ".join(f"c{i}: {t}" for i, t in enumerate(types))
+    cols = ", ".join(f"c{i}: {t.replace(':', '(') + (')' if ':' in t else '')}" for i, t in enumerate(types))
     steps = []
     data_first = rng.random() < 0.15
     if data_first:
